@@ -2,7 +2,13 @@ module verifharness
 
 go 1.18
 
-require github.com/kardiachain/go-kardia v0.0.0
+require (
+	github.com/ethereum/go-ethereum v1.9.15
+	github.com/gogo/protobuf v1.3.2
+	github.com/gtank/merlin v0.1.1
+	github.com/kardiachain/go-kardia v0.0.0
+	golang.org/x/crypto v0.0.0-20210921155107-089bfa567519
+)
 
 require (
 	github.com/VictoriaMetrics/fastcache v1.5.7 // indirect
@@ -12,13 +18,10 @@ require (
 	github.com/cespare/xxhash/v2 v2.1.1 // indirect
 	github.com/deckarep/golang-set v1.7.1 // indirect
 	github.com/ebuchman/fail-test v0.0.0-20170303061230-95f809107225 // indirect
-	github.com/ethereum/go-ethereum v1.9.15 // indirect
 	github.com/go-kit/kit v0.10.0 // indirect
 	github.com/go-stack/stack v1.8.0 // indirect
-	github.com/gogo/protobuf v1.3.2 // indirect
 	github.com/golang/protobuf v1.4.3 // indirect
 	github.com/golang/snappy v0.0.1 // indirect
-	github.com/gtank/merlin v0.1.1 // indirect
 	github.com/hashicorp/golang-lru v0.5.4 // indirect
 	github.com/holiman/bloomfilter/v2 v2.0.3 // indirect
 	github.com/holiman/uint256 v1.1.1 // indirect
@@ -32,7 +35,6 @@ require (
 	github.com/prometheus/procfs v0.2.0 // indirect
 	github.com/shirou/gopsutil v2.20.5+incompatible // indirect
 	github.com/syndtr/goleveldb v1.0.1-0.20200815110645-5c35d600f0ca // indirect
-	golang.org/x/crypto v0.0.0-20210921155107-089bfa567519 // indirect
 	golang.org/x/exp v0.0.0-20230626212559-97b1e661b5df // indirect
 	golang.org/x/net v0.3.0 // indirect
 	golang.org/x/sys v0.3.0 // indirect
